@@ -65,7 +65,12 @@ let () =
     if !panic then incr skip else begin
       let evl = List.rev !evs in
       match run cfg (init cfg) evl O with
-      | (_, None) -> incr acc
+      | (sfin, None) ->
+          (* acceptance at the end of the history: the trace ends with the drop of the operation's future; no closure future may still be in flight
+             (Properties C13_no_closure_future_outlives_the_operation, C14_in_flight_futures_dropped_with_the_operation) *)
+          if settled sfin then incr acc
+          else begin incr rej; Printf.printf "%s REJECT at %d: a closure future is still in flight at the end of the history   [%s]\n" id (List.length evl)
+                       (String.concat " " (List.map show_event evl)) end
       | (_, Some k) -> incr rej; let k = int_of_nat k in
           Printf.printf "%s REJECT at %d: %s   [%s]\n" id k (show_event (List.nth evl k)) (String.concat " " (List.map show_event evl))
     end
